@@ -18,10 +18,11 @@ impl GenericCommand for PickCommand {
             color_strings.push(run_external_colorpicker(config.colorpicker)?);
         }
 
-        let mut print_spectrum = PrintSpectrum::No;
-
         for color_str in color_strings {
-            let color = ColorArgIterator::from_color_arg(config, &color_str, &mut print_spectrum)?;
+            // The output of the color picker is a color, not a color argument: '-' or 'pick'
+            // must not make pastel read STDIN or run the picker once more.
+            let color = pastel::parser::parse_color(&color_str)
+                .ok_or(PastelError::ColorParseError(color_str))?;
             out.show_color(config, &color)?;
         }
 
